@@ -12,6 +12,10 @@ def nontrivial(h, ev):
     return int(f[2]) >= 2 and sum(1 for l in h if l.startswith("A ")) >= 2 and sum(1 for l in h if l.startswith("S ") and l.split()[3] != "0") >= 2
 
 
+def rng_for(seed, k):
+    return V.Rng(seed).fork("lag%d" % k)
+
+
 def check(tier, seed):
     ck = V.Check(PROP, tier, seed)
     ck.trusted = V.std_trusted() + R.ROUTING_TRUSTED
@@ -24,11 +28,72 @@ def check(tier, seed):
     R.engine(ck, PROP, tier, seed, {"faults": False, "vary": vary}, ("C01",), 160, 8000, proof_ok, nontrivial,
              "random histories", project=("K",),
              extra_histories=lambda r, exe, tier: [R.gen_long_ring(r.fork("ring%d" % i), exe) for i in range(1 if tier == "quick" else 6)])
+    # honest, lagging targets (monitor only: the acknowledgement values are whatever the implementation's stream carried): a
+    # target acknowledges the greatest watermark it has been sent - task-bearing, watermark-only or keep-alive - and the
+    # acknowledgement arrives after further tasks have been forwarded
+    lag = []
+    for k in range(6 if tier == "quick" else 60):
+        r = rng_for(seed, k)
+        ns_, nt_ = 1 + k % 2, 1 + (k // 2) % 2
+        h = ["I %d %d" % (ns_, nt_)] + ["C %d" % t for t in range(nt_)]
+        nid = [1000 * (s_ + 1) + r.range(1, 50) for s_ in range(ns_)]
+        cnt = 0
+        for rnd in range(r.range(2, 5)):
+            for s_ in range(ns_):
+                n = r.range(1, 3)
+                parts = []
+                for _ in range(n):
+                    cnt += 1
+                    parts.append("%d %d q%d" % (nid[s_], r.below(nt_), cnt))
+                    nid[s_] += 1
+                h.append("S %d %d %d %s" % (s_, nid[s_], n, " ".join(parts)))
+            t = r.below(nt_)
+            h += ["AQ %d" % t]
+            for s_ in range(ns_):
+                # two or three further tasks for that target: the last one's id is the acknowledgement value, the ones before it are claimed
+                n = r.range(2, 3)
+                parts = []
+                for _ in range(n):
+                    cnt += 1
+                    parts.append("%d %d q%d" % (nid[s_], t, cnt))
+                    nid[s_] += 1
+                h.append("S %d %d %d %s" % (s_, nid[s_], n, " ".join(parts)))
+            h += ["AF %d" % t]
+        h.append("E")
+        lag.append(h)
+    lerr, limpl = R.run_impl(lag, "c01lag")
+    if lerr:
+        ck.obligation("honest lagging targets run", False, lerr[:1500])
+    else:
+        lbad = []
+        for h, ev in zip(lag, limpl):
+            v, _ = R.monitor(h, ev)
+            v = [x for x in v if x[0] == "C01"]
+            if v:
+                lbad.append((h, v))
+        ck.obligation("targets that acknowledge the greatest watermark they were sent (keep-alives included), the acknowledgement arriving after further tasks were forwarded (%d histories): "
+                      "no source is told more than its targets had confirmed" % len(lag), not lbad, "%d histories" % len(lbad))
+        if lbad and not ck.violations:
+            h, v = lbad[0]
+            ck.violation({"kind": "lagging", "history": h, "verdict": [str(x) for x in v[:3]]}, "C01 with an honest lagging target: " + v[0][2])
     return ck.finish(rule="histories of 1-3 sources x 1-4 targets generated from VERIF_SEED through the extracted model (Temporal-like sources, multi-task and watermark batches, "
                           "prompt / lagging / arbitrary / repeated acks, late-connecting and stalled targets); non-trivial = >= 2 targets, >= 2 task batches and >= 2 acks; distinct by sha256")
 
 
-replay = R.replay
+def replay(data):
+    if data.get("kind") == "lagging":
+        err, impl = R.run_impl([data["history"]], "c01lagr")
+        if err:
+            print(err)
+            return 1
+        v, _ = R.monitor(data["history"], impl[0])
+        v = [x for x in v if x[0] == "C01"]
+        for x in v[:10]:
+            print(x)
+        print("REPRODUCED" if v else "not reproduced on the current tree")
+        return 1 if v else 0
+    return R.replay(data)
+
 
 MANIFEST = {
     "technique": "Coq invariant proof over all action sequences of the routing transition system (end-to-end safe-ack theorem, 14-clause invariant, ~1400 lines) + refutation witness for the "
